@@ -5,6 +5,7 @@ import (
 
 	"github.com/wundergraph/graphql-go-tools/v2/pkg/ast"
 	"github.com/wundergraph/graphql-go-tools/v2/pkg/astvisitor"
+	"github.com/wundergraph/graphql-go-tools/v2/pkg/lexer/literal"
 )
 
 func inlineSelectionsFromInlineFragments(walker *astvisitor.Walker) {
@@ -76,7 +77,19 @@ func (m *inlineSelectionsFromInlineFragmentsVisitor) couldInline(inlineFragmentR
 }
 
 func (m *inlineSelectionsFromInlineFragmentsVisitor) resolveInlineFragment(selectionSetRef, index, inlineFragment int) {
+	if len(m.operation.SelectionSets[selectionSetRef].SelectionRefs) > 1 && m.holdsOnlyTypeNamePlaceholder(inlineFragment) {
+		// directiveIncludeSkip emptied the fragment and left a placeholder to keep it valid:
+		// the enclosing selection set has other selections, so nothing needs to be kept
+		m.operation.RemoveFromSelectionSet(selectionSetRef, index)
+		return
+	}
 	m.operation.ReplaceSelectionOnSelectionSet(selectionSetRef, index, m.operation.InlineFragments[inlineFragment].SelectionSet)
+}
+
+func (m *inlineSelectionsFromInlineFragmentsVisitor) holdsOnlyTypeNamePlaceholder(inlineFragment int) bool {
+	selectionRefs := m.operation.SelectionSets[m.operation.InlineFragments[inlineFragment].SelectionSet].SelectionRefs
+	return len(selectionRefs) == 1 && m.operation.Selections[selectionRefs[0]].Kind == ast.SelectionKindField &&
+		bytes.Equal(m.operation.FieldAliasBytes(m.operation.Selections[selectionRefs[0]].Ref), literal.INTERNAL_TYPENAME)
 }
 
 func (m *inlineSelectionsFromInlineFragmentsVisitor) EnterSelectionSet(ref int) {
